@@ -152,14 +152,14 @@ Qed.
 
 Lemma otlp_res_stream_some q r rows : otlp_res q r = Some rows -> otlp_res_stream q r = (rows, false).
 Proof.
-  unfold otlp_res, otlp_res_stream. destruct (r_has_res r).
+  unfold otlp_res, otlp_res_stream. destruct (r_has_res r || negb (q_nil_resource q)).
   - apply mapM_pre_some.
   - destruct (List.concat (r_scopes r)); [|discriminate]. intros H; inversion H. reflexivity.
 Qed.
 
 Lemma otlp_res_stream_none q r : otlp_res q r = None -> snd (otlp_res_stream q r) = true.
 Proof.
-  unfold otlp_res, otlp_res_stream. destruct (r_has_res r).
+  unfold otlp_res, otlp_res_stream. destruct (r_has_res r || negb (q_nil_resource q)).
   - apply mapM_pre_none.
   - destruct (List.concat (r_scopes r)); [discriminate|reflexivity].
 Qed.
